@@ -160,8 +160,24 @@ def run(ctx) -> None:
         ok = bool(stores) and all(any(d in dom.get(s, set()) for d in newdefs) for s in stores)
         rep.add("C17.R4", f"{uv.qname}:newness-before-store", ok, uv.loc(), "'is the name new' is sampled before the value is stored" if ok else "'is the name new' is sampled after the store (always false)")
 
+    check_block_before_deferral(ctx, "C17.R3")
+
     # ---- R5 ---------------------------------------------------------------------
     check_completions_emit(ctx, "C17.R5")
+
+
+def check_block_before_deferral(ctx, rule: str) -> None:
+    """The 'gate decides first' block is computed from the gates that are ready *before* the producer-first
+    deferral: a gate that is ready but deferred (its signal's producer is co-ready) must still hold its
+    targets back, otherwise the loop body re-runs ungated while the gate starves."""
+    db, rep = ctx.db, ctx.rep
+    grn = db.func("runners._shared.helpers.get_ready_nodes")
+    cfg = ctx.cfg(grn)
+    dom = dominators(cfg.entry)
+    defer = [n for n in cfg.nodes if any("_defer_wait_for_nodes" in call_names(db, c, grn) for c in cfg.calls_at(n))]
+    gates = [n for n in cfg.nodes if n.kind == "stmt" and isinstance(n.ast, ast.Assign) and isinstance(n.ast.value, (ast.SetComp, ast.ListComp)) and any(isinstance(x, ast.Call) and dotted(x.func) == "isinstance" and "GateNode" in src(x) for x in ast.walk(n.ast.value))]
+    ok = bool(defer) and bool(gates) and all(any(g_ in dom.get(d, set()) for g_ in gates) for d in defer) and not any(d in dom.get(g_, set()) for d in defer for g_ in gates)
+    rep.add(rule, f"{grn.qname}:gate-block-before-deferral", ok, grn.loc(), "the set of ready gates whose targets are held back is taken before the producer-first deferral" if ok else "ready gates are collected after the producer-first deferral: a gate deferred behind its signal's producer no longer blocks its targets, the body re-runs ungated and the gate is never evaluated (extra iterations / InfiniteLoopError)")
 
 
 def check_completions_emit(ctx, rule: str) -> None:
